@@ -397,4 +397,174 @@ theorem run_static (s : Sys) (evs : List Ev) : (run s evs).cfr = s.cfr ∧ (run 
     obtain ⟨c, d⟩ := step_static s e
     exact ⟨by rw [show run s (e :: es) = run (step s e) es from rfl, a, c], by rw [show run s (e :: es) = run (step s e) es from rfl, b, d]⟩
 
+
+theorem intake_pieces (t : Sys) : (intake t).pieces = t.pieces := by
+  unfold intake
+  split
+  · rfl
+  · split
+    · dsimp only; split <;> simp [postAppend]
+    · split
+      · rfl
+      · split
+        · dsimp only; split <;> simp [postAppend]
+        · rfl
+
+/-- every upstream write carries at least one octet (a zero-size chunk would be read as the last-chunk) -/
+theorem pieces_nonempty_step {s : Sys} (h : ∀ p ∈ s.pieces, p ≠ []) (e : Ev) : ∀ p ∈ (step s e).pieces, p ≠ [] := by
+  cases e with
+  | client seg => simp only [step]; rw [intake_pieces]; exact h
+  | space => simp only [step]; rw [intake_pieces]; exact h
+  | clientGone => simp only [step]; split <;> exact h
+  | start => simp only [step]; split <;> exact h
+  | notify => simp only [step]; split <;> (try split) <;> (try split) <;> (try split) <;> simpa [doneSending] using h
+  | send =>
+    simp only [step]
+    split
+    · exact h
+    · rename_i hgo
+      have hne : s.buf ≠ [] := by
+        intro hb; simp [hb] at hgo
+      have : ∀ p ∈ s.pieces ++ [s.buf], p ≠ [] := by
+        intro p hp
+        simp only [List.mem_append, List.mem_singleton] at hp
+        rcases hp with hp | hp
+        · exact h p hp
+        · rw [hp]; exact hne
+      split <;> simpa [doneSending] using this
+
+theorem pieces_nonempty_run {s : Sys} (h : ∀ p ∈ s.pieces, p ≠ []) (evs : List Ev) : ∀ p ∈ (run s evs).pieces, p ≠ [] := by
+  induction evs generalizing s with
+  | nil => exact h
+  | cons e es ih => exact ih (pieces_nonempty_step h e)
+
+
+/-! ## consequences of the invariant, for any state -/
+
+theorem up_prefix {s : Sys} (h : Inv s) : s.upBody <+: s.produced := by
+  rw [h.fifo]; exact List.prefix_append _ _
+
+theorem prefix_eq_of_length {a b : Bytes} (h : a <+: b) (hl : a.length = b.length) : a = b := by
+  obtain ⟨t, ht⟩ := h
+  have hl' := congrArg List.length ht
+  rw [List.length_append] at hl'
+  have : t = [] := by
+    cases t with
+    | nil => rfl
+    | cons x y => simp at hl'; omega
+  rw [this, List.append_nil] at ht
+  exact ht
+
+theorem cl_facts {s : Sys} (h : Inv s) (n : Nat) (hc : s.cfr = .cl n) :
+    s.produced = s.clientAll.take s.put ∧ s.put ≤ n ∧ s.upBody <+: s.clientAll.take n := by
+  have hst := h.cl_stream n hc
+  have hle := (h.cl_size n hc).2
+  have hp : s.produced = s.clientAll.take s.put := by
+    rw [hst, h.put_len]; simp
+  refine ⟨hp, hle, ?_⟩
+  have h2 : s.produced <+: s.clientAll.take n := by
+    rw [hp]
+    exact List.take_prefix_take_left (by omega)
+  exact List.IsPrefix.trans (up_prefix h) h2
+
+theorem last_facts {s : Sys} (h : Inv s) (hl : s.sentLast = true) :
+    s.endedOk = true ∧ s.endedBad = false ∧ s.buf = [] ∧ s.upBody = s.produced ∧ s.upChunked = true := by
+  obtain ⟨hw, hb, hu⟩ := h.last_ok hl
+  have hok := h.whole_ok hw
+  refine ⟨hok, (h.ok_bad hok).1, hb, ?_, hu⟩
+  have := h.fifo
+  rw [hb, List.append_nil] at this
+  exact this.symm
+
+theorem complete_cl {s : Sys} (h : Inv s) (n : Nat) (hcfr : s.cfr = .cl n) (hc : s.upComplete = true) :
+    n ≤ s.clientAll.length ∧ s.upBody = s.clientAll.take n := by
+  obtain ⟨hp, hle, hpre⟩ := cl_facts h n hcfr
+  have hsz := (h.cl_size n hcfr).1
+  have hlen : s.upBody.length = n := by
+    unfold Sys.upComplete at hc
+    cases hu : s.upChunked
+    · simp only [hu, Bool.false_eq_true, ↓reduceIte] at hc
+      rw [hsz] at hc
+      simpa using hc
+    · simp only [hu, ↓reduceIte] at hc
+      obtain ⟨hok, _, _, hub, _⟩ := last_facts h hc
+      have := (h.ok_bad hok).2
+      rw [hsz] at this
+      have hput : s.put = n := by injection this with this; exact this.symm
+      rw [hub, ← h.put_len, hput]
+  have hlt : s.upBody.length ≤ (s.clientAll.take n).length := hpre.length_le
+  rw [List.length_take] at hlt
+  refine ⟨by omega, ?_⟩
+  apply prefix_eq_of_length hpre
+  rw [List.length_take]; omega
+
+theorem complete_chunked {s : Sys} (h : Inv s) (hcfr : s.cfr = .chunked) (hc : s.upComplete = true) :
+    s.endedOk = true ∧ s.endedBad = false ∧ s.upBody = s.produced := by
+  unfold Sys.upComplete at hc
+  cases hu : s.upChunked
+  · simp only [hu, Bool.false_eq_true, ↓reduceIte] at hc
+    cases hs : s.size with
+    | none => rw [hs] at hc; simp at hc
+    | some m =>
+      rw [hs] at hc
+      have hc' : s.upBody.length = m := by simpa using hc
+      have hok := (h.ch_size hcfr).2 (by simp [hs])
+      obtain ⟨hb, hsz⟩ := h.ok_bad hok
+      rw [hs] at hsz
+      have hput : s.put = m := by injection hsz with hsz; exact hsz.symm
+      refine ⟨hok, hb, ?_⟩
+      apply prefix_eq_of_length (up_prefix h)
+      rw [← h.put_len, hput, hc']
+  · simp only [hu, ↓reduceIte] at hc
+    obtain ⟨a, b, _, d, _⟩ := last_facts h hc
+    exact ⟨a, b, d⟩
+
+theorem aborted_incomplete {s : Sys} (h : Inv s) (hpos : ∀ n, s.cfr = .cl n → 0 < n) (ha : s.aborted = true) :
+    s.upComplete = false := by
+  have hbad := h.abort_ok ha
+  have hnok : s.endedOk = false := by
+    cases ho : s.endedOk
+    · rfl
+    · have := (h.ok_bad ho).1; rw [hbad] at this; simp at this
+  cases hc : s.upComplete
+  · rfl
+  · exfalso
+    cases hcfr : s.cfr with
+    | chunked =>
+      have := (complete_chunked h hcfr hc).1
+      rw [hnok] at this; simp at this
+    | cl n =>
+      obtain ⟨_, hub⟩ := complete_cl h n hcfr hc
+      have hshort := h.cl_short n hcfr (hpos n hcfr) (Or.inr hbad)
+      have h1 : s.upBody.length ≤ s.produced.length := (up_prefix h).length_le
+      have hsz := (h.cl_size n hcfr).1
+      unfold Sys.upComplete at hc
+      cases hu : s.upChunked
+      · simp only [hu, Bool.false_eq_true, ↓reduceIte] at hc
+        rw [hsz] at hc
+        have hc' : s.upBody.length = n := by simpa using hc
+        rw [← h.put_len] at h1
+        omega
+      · simp only [hu, ↓reduceIte] at hc
+        have := h.whole_ok (h.last_ok hc).1
+        rw [hnok] at this; simp at this
+
+theorem done_facts {s : Sys} (h : Inv s) (hd : s.done = true) :
+    s.upComplete = true ∧ s.upBody = s.produced ∧ s.endedOk = true := by
+  obtain ⟨hw, hb, hl⟩ := h.done_ok hd
+  have hok := h.whole_ok hw
+  have hub : s.upBody = s.produced := by
+    have := h.fifo
+    rw [hb, List.append_nil] at this
+    exact this.symm
+  refine ⟨?_, hub, hok⟩
+  unfold Sys.upComplete
+  cases hu : s.upChunked
+  · simp only [Bool.false_eq_true, ↓reduceIte]
+    rw [(h.ok_bad hok).2]
+    simp only [decide_eq_true_eq]
+    rw [hub, h.put_len]
+  · simp only [↓reduceIte]
+    exact hl hu
+
 end SquidModel.Relay.Request
